@@ -123,3 +123,27 @@ for _pid, (_t, _x) in EXTRA.items():
     if _pid in CLAIMED:
         CLAIMED[_pid]["technique"] += _t
         CLAIMED[_pid]["text"] += _x
+
+# ---- additions after seeded round 4 ----
+EXTRA4 = {
+ "C01": " Round 4: the index value carries the deletion flag exactly when the version record is the deletion marker, also in the repair write (R7).",
+ "C02": " Round 4: the index CAS guards count only with engines that evaluate them atomically (C01-R6 imported into R5); the compaction reads the committed revision before the repair queue's minimum.",
+ "C03": " Round 4: the internal keys a read is addressed with are well-formed - layouts agree and the encoder returns a fresh array (C10-R1, imported as R6).",
+ "C05": " Round 4: a forwarder start that is conditional on requested-vs-committed uses the strict form (R10); a delete hands the previous value it read to the sink on every path after the commit (R11).",
+ "C06": " Round 4: the compaction reads the committed revision before the repair queue's minimum (C09-R2, imported into R3).",
+ "C07": " Round 4: read order in Compact (C09-R2, imported into R5).",
+ "C08": " Round 4: the floor check never answers nil on the read path before it has read the stored floor (R4).",
+ "C09": " Round 4: Compact reads the committed revision before MinRevision() on every path (R2), the reader side of enqueue-before-commit.",
+ "C10": " Round 4: encoders written as append chains are read as well, and an encoder that appends onto a package-level slice is reported (R1).",
+ "C11": " Round 4: success of an operation's closure only after an engine write (R1), Del never reports a storage sentinel (R9), an adapter with native TTL uses the ttl in every write form (R10).",
+ "C12": " Round 4: bytes handed to an engine write are not a window into a long-lived buffer (R5); C11-R9 imported into R0.",
+ "C13": " Round 4: border contiguity also for the element-copy form (for i, p := range ps .. append(ret, p)); the parallel scan driver is a region (go + WaitGroup.Wait through helpers).",
+ "C14": " Round 4: repository code calls none of the lock's Get/Create/Update (R6); the record bytes handed to the engine are not a reusable buffer (R7).",
+ "C15": " Round 4: when nothing IsLeader() reads is written by the leader-start callback, leadership comes from another source and can precede SetCurrentRevision: reported as a violation of R1.",
+ "C16": " Round 4: the backend conditions behind the transaction shapes and the wrapper's transparency for engine errors (C01-R3/R4/R7, C11-R5) are imported as R8.",
+ "C17": " Round 4: an engine with native TTL uses the ttl in every write form (C11-R10 as R8); the wrapper forwards the compare-and-delete as one (C11-R5 into R7).",
+ "C20": " Round 4: every position into a ring buffer's backing array is a result of its wrap function (R8).",
+}
+for _pid, _x in EXTRA4.items():
+    if _pid in CLAIMED:
+        CLAIMED[_pid]["text"] += _x
